@@ -273,6 +273,11 @@ Definition converged_b (cfg : config) (d : db) : bool :=
   forallb (fun g => negb (wanted cfg g) ||
      (String.eqb (recd d g) (desired cfg g) && forallb (fun t => String.eqb (val d g t) (desired cfg g)) (tables_of g))) groups.
 
+(* the table part of converged_b: what an observer of the tables can check without knowing under which
+   settings names the implementation keeps its records *)
+Definition applied_b (cfg : config) (d : db) : bool :=
+  forallb (fun g => negb (wanted cfg g) || forallb (fun t => String.eqb (val d g t) (desired cfg g)) (tables_of g)) groups.
+
 (* ------------------------------------------------------------------ statement text (what the fake connection sees) *)
 Inductive oarg := AS (s : string) | AN (n : Z).
 Record ocall := { o_q : bool; o_sql : string; o_args : list oarg; o_ok : bool }.
@@ -458,8 +463,9 @@ Fixpoint record_after_all_obs (earlier : list ocall) (l : list ocall) : bool :=
   | o :: r => put_ok earlier o && record_after_all_obs (o :: earlier) r
   end.
 
-(* (3) an uninterrupted run leaves the configured state (when the history started from a consistent database),
-   (4) the run after an uninterrupted run with the same configuration issues no Exec *)
+(* (3) a run that returned no error leaves the configured TTL / policy on every table (when the history started from
+   a consistent database); that the records are right shows in (4): the run after such a run with the same
+   configuration issues no Exec.  Neither depends on the names the implementation records under. *)
 Definition policy_eqb (a b : policy) : bool := (p_ns a =? p_ns b) && String.eqb (p_disk a) (p_disk b) && (p_conv a =? p_conv b).
 Definition config_eqb (a b : config) : bool :=
   String.eqb (cluster a) (cluster b) && Bool.eqb (distributed a) (distributed b) &&
@@ -472,7 +478,7 @@ Fixpoint runs_ok (start_consistent : bool) (prev_done : option config) (rs : lis
   | r :: rest =>
     forallb tier_min_obs (r_log r) &&
     record_after_all_obs [] (r_log r) &&
-    (r_err r || negb start_consistent || converged_b (r_cfg r) (obs_db r)) &&
+    (r_err r || negb start_consistent || applied_b (r_cfg r) (obs_db r)) &&
     match prev_done with
     | Some c => negb (config_eqb c (r_cfg r)) || forallb o_q (r_log r)
     | None => true
